@@ -77,16 +77,16 @@ def nav_queries(stmt, order, ids, rng, budget=60):
                     if rng.random() < 0.5 and len(qs) > budget:
                         continue
                     ri, rn = g.token_next(i, skip_ws=sw, skip_cm=sc)
-                    qs.append({'op': 'next', 'g': ids[id(g)], 'i': i, 'sw': sw, 'sc': sc, 'c': '', 'o': 0,
+                    qs.append({'op': 'next', 'g': ids[id(g)], 'i': i, 'sw': sw, 'sc': sc, 'c': '', 'cs': [], 'o': 0,
                                'ri': -1 if ri is None else ri, 'rn': rid(rn)})
                     if i >= 0:
                         ri, rn = g.token_prev(i, skip_ws=sw, skip_cm=sc)
-                        qs.append({'op': 'prev', 'g': ids[id(g)], 'i': i, 'sw': sw, 'sc': sc, 'c': '', 'o': 0,
+                        qs.append({'op': 'prev', 'g': ids[id(g)], 'i': i, 'sw': sw, 'sc': sc, 'c': '', 'cs': [], 'o': 0,
                                    'ri': -1 if ri is None else ri, 'rn': rid(rn)})
         for sw in (True, False):
             for sc in (True, False):
                 f = g.token_first(skip_ws=sw, skip_cm=sc)
-                qs.append({'op': 'first', 'g': ids[id(g)], 'i': 0, 'sw': sw, 'sc': sc, 'c': '', 'o': 0,
+                qs.append({'op': 'first', 'g': ids[id(g)], 'i': 0, 'sw': sw, 'sc': sc, 'c': '', 'cs': [], 'o': 0,
                            'ri': 0, 'rn': rid(f)})
         for c in (g.tokens if n <= 8 else rng.sample(g.tokens, 8)):
             qs.append({'op': 'index', 'g': ids[id(g)], 'i': 0, 'sw': False, 'sc': False, 'c': '',
@@ -96,13 +96,23 @@ def nav_queries(stmt, order, ids, rng, budget=60):
     offs = list(range(0, text_len + 1)) if text_len <= 40 else sorted(rng.sample(range(0, text_len + 1), 40))
     for o in offs + [text_len + 3]:
         t = stmt.get_token_at_offset(o)
-        qs.append({'op': 'offset', 'g': 0, 'i': o, 'sw': False, 'sc': False, 'c': '', 'o': 0, 'ri': 0, 'rn': rid(t)})
-    classes = sorted({type(g).__name__ for g in groups})
-    clsmap = {type(g).__name__: type(g) for g in groups}
+        qs.append({'op': 'offset', 'g': 0, 'i': o, 'sw': False, 'sc': False, 'c': '', 'cs': [], 'o': 0, 'ri': 0, 'rn': rid(t)})
+    # within(): asked with every kind of class argument - the concrete classes present, base and mixin classes
+    # (TokenList, NameAliasMixin, Token), classes not present, and tuples; the reference is isinstance on ancestors,
+    # given to the model as the set of concrete node classes covered by the argument
+    allcls = [c for c in vars(sql).values() if isinstance(c, type) and (issubclass(c, sql.Token) or c is sql.NameAliasMixin)]
+    present = sorted({type(g) for g in groups}, key=lambda c: c.__name__)
+    concrete = [c for c in allcls if issubclass(c, sql.TokenList)]
+
+    def covered(arg):
+        args = arg if isinstance(arg, tuple) else (arg,)
+        return sorted(c.__name__ for c in concrete if issubclass(c, args))
     for t in (order if len(order) <= 25 else rng.sample(order, 25)):
-        for c in classes[:6]:
-            qs.append({'op': 'within', 'g': 0, 'i': 0, 'sw': False, 'sc': False, 'c': c, 'o': ids[id(t)],
-                       'ri': 1 if t.within(clsmap[c]) else 0, 'rn': 0})
+        asked = present[:5] + rng.sample(allcls, 3) + [tuple(rng.sample(allcls, 2))]
+        for c in asked:
+            name = '+'.join(x.__name__ for x in c) if isinstance(c, tuple) else c.__name__
+            qs.append({'op': 'within', 'g': 0, 'i': 0, 'sw': False, 'sc': False, 'c': name, 'cs': covered(c), 'o': ids[id(t)],
+                       'ri': 1 if t.within(c) else 0, 'rn': 0})
         for g in (groups if len(groups) <= 6 else rng.sample(groups, 6)):
             qs.append({'op': 'ancestor', 'g': ids[id(g)], 'i': 0, 'sw': False, 'sc': False, 'c': '',
                        'o': ids[id(t)], 'ri': 1 if t.has_ancestor(g) else 0, 'rn': 0})
